@@ -115,3 +115,30 @@ fn u14_3_mcnk_header_reset() {
     assert!(h.flags.value == src.header.flags.value && h.index_x == src.header.index_x && h.index_y == src.header.index_y, "identity fields are kept");
     assert!(h.area_id == src.header.area_id && h.holes_low_res == src.header.holes_low_res && h.n_doodad_refs == src.header.n_doodad_refs && h.n_map_obj_refs == src.header.n_map_obj_refs, "content fields are kept");
 }
+
+// ------------------------------------------------------------------------------------ U14.5 MCCV sub-chunk emission
+// the vertex colours of a terrain chunk are framed as MCCV with size 4 * n and stored B,G,R,A per vertex (the order the
+// binrw reader of VertexColor uses), so colours survive write -> parse and a second round changes nothing
+// @harness unit=U14.5 props=C14 kind=bounded bound="2 vertex colours; every channel value" timeout=600 target="builder/serializer.rs: write_mcnk_chunk MCCV emission statements (E11 block)" oracle=adt_offsets
+#[kani::proof]
+#[kani::unwind(6)]
+#[kani::stub(alloc::fmt::format, stub_format)]
+fn u14_5_mccv_emission_layout() {
+    use crate::chunks::mcnk::VertexColor;
+    let c0 = VertexColor { b: kani::any(), g: kani::any(), r: kani::any(), a: kani::any() };
+    let c1 = VertexColor { b: kani::any(), g: kani::any(), r: kani::any(), a: kani::any() };
+    let (b0, g0, r0, a0, b1, g1, r1, a1) = (c0.b, c0.g, c0.r, c0.a, c1.b, c1.g, c1.r, c1.a);
+    let mccv = MccvChunk { colors: vec![c0, c1] };
+    let mut buf = [0xAAu8; 24];
+    let left = {
+        let mut w: &mut [u8] = &mut buf[..];
+        match blk_mccv_emit(&mut w, &mccv) { Ok(()) => {}, Err(e) => { core::mem::forget(e); assert!(false, "emission succeeds"); } }
+        w.len()
+    };
+    assert!(left == 8, "8-byte chunk header + 4 bytes per colour");
+    assert!(buf[0..4] == ChunkId::MCCV.0, "chunk magic");
+    assert!(buf[4..8] == 8u32.to_le_bytes(), "size field = 4 * number of colours");
+    assert!(buf[8] == b0 && buf[9] == g0 && buf[10] == r0 && buf[11] == a0, "colour 0 stored B,G,R,A");
+    assert!(buf[12] == b1 && buf[13] == g1 && buf[14] == r1 && buf[15] == a1, "colour 1 stored B,G,R,A");
+    core::mem::forget(mccv);
+}
